@@ -107,6 +107,7 @@ func runC12(c *Ctx) {
 		c.Trivial("C12.1", "package", "no-sentinel", token.NoPos, "no timeout decoder returns a package-level sentinel error: nothing to filter")
 	}
 	runC12SentinelConditions(c, sentinels)
+	runC12ExactDecoders(c)
 	cph := p.Iface("clientProtocolHandler")
 	if cph == nil {
 		fatalf("anchor=clientProtocolHandler not found")
@@ -621,4 +622,82 @@ func runC12SentinelConditions(c *Ctx, sentinels []*ssa.Global) {
 	if n == 0 {
 		c.Trivial("C12.5", "package", "no-sentinel-return", token.NoPos, "no timeout decoder returns the sentinel")
 	}
+}
+
+// runC12ExactDecoders: C12.6 (defect D34).  A timeout decoder (string -> time.Duration) must be
+// exact and strict.  Going through a float parser accepts NaN, Inf, signs, exponents and hex
+// floats as timeouts, truncation of val*1e9 can lose a whole target unit, and the float->integer
+// conversion overflows silently (a huge timeout becomes an expired one).
+func runC12ExactDecoders(c *Ctx) {
+	p := c.P
+	c.Rule("C12.6", "timeout decoders do not go through floating point; encoders never produce an empty value", 4)
+	n := 0
+	for _, fn := range p.Funcs {
+		if !p.inScope(fn) || fn.Parent() != nil {
+			continue
+		}
+		res := fn.Signature.Results()
+		if res.Len() != 2 || !isNamed(res.At(0).Type(), "time", "Duration") || !isErrorType(res.At(1).Type()) {
+			continue
+		}
+		if len(fn.Params) != 1 || !isStringType(fn.Params[0].Type()) {
+			continue
+		}
+		n++
+		var bad []string
+		ForEachInstr(fn, func(in ssa.Instruction) {
+			switch x := in.(type) {
+			case ssa.CallInstruction:
+				if IsCallTo(x, "strconv.ParseFloat") {
+					bad = append(bad, "strconv.ParseFloat at "+p.Pos(x.Pos()))
+				}
+			case *ssa.Convert:
+				if isFloatType(x.X.Type()) && isIntegerLike(x.Type()) {
+					bad = append(bad, "float-to-integer conversion at "+p.Pos(x.Pos()))
+				}
+			}
+		})
+		c.Check(len(bad) == 0, "C12.6", FuncName(fn), "decoder-exact", fn.Pos(),
+			"the decoder works on digits / integers only",
+			"the timeout decoder goes through floating point ("+joinStr(bad)+"): NaN, Inf, negative, exponent and hex forms are accepted as timeouts, large values overflow to an expired deadline, and truncation can lose a whole unit of the target encoding")
+	}
+	if n == 0 {
+		c.Bad("C12.6", "package", "decoder-exact", token.NoPos, "no timeout decoder (string -> time.Duration, error) found: shape changed")
+	}
+	// encoders (time.Duration -> string): an empty value means 'no timeout' to every reader, so
+	// no duration - zero included - may be encoded as the empty string (defect D33)
+	nEnc := 0
+	for _, fn := range p.Funcs {
+		if !p.inScope(fn) || fn.Parent() != nil || len(fn.Params) != 1 || !isNamed(fn.Params[0].Type(), "time", "Duration") {
+			continue
+		}
+		res := fn.Signature.Results()
+		if res.Len() != 1 || !isStringType(res.At(0).Type()) {
+			continue
+		}
+		nEnc++
+		var empties []string
+		ForEachInstr(fn, func(in ssa.Instruction) {
+			ret, ok := in.(*ssa.Return)
+			if !ok || len(ret.Results) != 1 {
+				return
+			}
+			for _, l := range Origins(ret.Results[0]) {
+				if s2, isS := ConstString(l.V); l.Kind == "const" && isS && s2 == "" && len(l.Ops) == 0 {
+					empties = append(empties, p.Pos(ret.Pos()))
+				}
+			}
+		})
+		c.Check(len(empties) == 0, "C12.6", FuncName(fn), "encoder-never-empty", fn.Pos(),
+			"no duration is encoded as the empty string",
+			"the timeout encoder returns the empty string ("+joinStr(empties)+"): the header is still set, and an empty value means 'no timeout' - a zero (already expired) deadline is extended to infinity")
+	}
+	if nEnc == 0 {
+		c.Bad("C12.6", "package", "encoder-never-empty", token.NoPos, "no timeout encoder (time.Duration -> string) found: shape changed")
+	}
+}
+
+func isFloatType(t types.Type) bool {
+	b, ok := t.Underlying().(*types.Basic)
+	return ok && b.Info()&types.IsFloat != 0
 }
